@@ -27,6 +27,7 @@ import (
 )
 
 type trUnit struct {
+	matchExt string             // which external function X.Match(a) on a non-translated receiver stands for
 	ns      string              // Lean namespace below Dtail.Gen
 	pkgDir  string              // package directory relative to the repo
 	structs map[string][]string // struct name -> fields to include (nil = all)
@@ -35,10 +36,14 @@ type trUnit struct {
 }
 
 var trUnits = []trUnit{
-	{ns: "Fs", pkgDir: "internal/io/fs",
+	{ns: "Fs", pkgDir: "internal/io/fs", matchExt: "reMatch",
 		structs: map[string][]string{"stats": nil, "readFile": {"stats", "globID", "canSkipLines"}},
 		funcs: []string{"stats.totalLineCount", "stats.transmittedPerc", "stats.updatePosition", "stats.updateLineMatched", "stats.updateLineTransmitted",
 			"stats.updateLineNotMatched", "stats.updateLineNotTransmitted", "readFile.transmittable"}},
+	{ns: "Regex", pkgDir: "internal/regex", matchExt: "reMatchRaw",
+		structs: map[string][]string{"Regex": nil},
+		enums:   []string{"Flag"},
+		funcs:   []string{"NewFlag", "Flag.String", "NewNoop", "new", "New", "Regex.Match", "Regex.Serialize", "Deserialize"}},
 	{ns: "Mapr", pkgDir: "internal/mapr",
 		structs: map[string][]string{"AggregateSet": nil, "selectCondition": {"Field", "FieldStorage", "Operation"}, "Query": {"Select"}},
 		enums:   []string{"AggregateOperation"},
@@ -165,8 +170,13 @@ func (p *trPkg) leanType(e ast.Expr) string {
 			return "GoRegex"
 		case "line.Line":
 			return "GoLine"
+		case "regexp.Regexp":
+			return "GoRe"
 		}
 	case *ast.ArrayType:
+		if id, ok := t.Elt.(*ast.Ident); ok && t.Len == nil && (id.Name == "byte" || id.Name == "uint8") {
+			return "GoString"
+		}
 		return "(List " + p.leanType(t.Elt) + ")"
 	case *ast.MapType:
 		return "(GoMap " + p.leanType(t.Key) + " " + p.leanType(t.Value) + ")"
@@ -995,7 +1005,7 @@ func (f *trFn) expr(e ast.Expr) string {
 		case token.STRING:
 			c := eval(v, nil)
 			s, _ := constStr(c)
-			return "(gs " + leanStr(s) + ")"
+			return leanBytesLit(s)
 		case token.CHAR:
 			c := eval(v, nil)
 			return c.ExactString()
@@ -1024,6 +1034,30 @@ func (f *trFn) expr(e ast.Expr) string {
 		return f.expr(v.X) + "." + v.Sel.Name
 	case *ast.IndexExpr:
 		return fmt.Sprintf("(GoIndex.idx %s %s)", f.expr(v.X), f.expr(v.Index))
+	case *ast.CompositeLit:
+		switch t := v.Type.(type) {
+		case *ast.Ident:
+			if _, ok := f.p.unit.structs[t.Name]; ok {
+				var fields []string
+				for _, el := range v.Elts {
+					kv, ok := el.(*ast.KeyValueExpr)
+					if !ok {
+						trFail(v, "struct literal without field names")
+					}
+					fields = append(fields, fmt.Sprintf("%s := %s", src(kv.Key), f.expr(kv.Value)))
+				}
+				return "({ " + strings.Join(fields, ", ") + " } : " + t.Name + ")"
+			}
+		case *ast.ArrayType:
+			if t.Len == nil {
+				var els []string
+				for _, el := range v.Elts {
+					els = append(els, f.expr(el))
+				}
+				return "([" + strings.Join(els, ", ") + "] : List " + f.p.leanType(t.Elt) + ")"
+			}
+		}
+		trFail(v, "composite literal %s is not in the translated subset", src(v))
 	case *ast.CallExpr:
 		fn := src(v.Fun)
 		if f.isTranslatedMethodCall(v) {
@@ -1044,7 +1078,21 @@ func (f *trFn) expr(e ast.Expr) string {
 			}
 			return "(" + call + ")"
 		}
+		if id, ok := v.Fun.(*ast.Ident); ok {
+			if sig, ok := f.p.sigs[id.Name]; ok && sig.recv == "" {
+				var args []string
+				for _, a := range v.Args {
+					args = append(args, f.expr(a))
+				}
+				return "(" + strings.TrimSpace(fmt.Sprintf("%s ext %s", leanIdent(id.Name), strings.Join(args, " "))) + ")"
+			}
+		}
 		if sel, ok := v.Fun.(*ast.SelectorExpr); ok {
+			if sel.Sel.Name == "Match" && len(v.Args) == 1 && !f.isTranslatedMethodCall(v) {
+				if _, isIdent := sel.X.(*ast.Ident); !isIdent || f.p.unit.matchExt == "reMatchRaw" {
+					return "(ext." + f.p.unit.matchExt + " " + f.expr(sel.X) + " " + f.expr(v.Args[0]) + ")"
+				}
+			}
 			switch sel.Sel.Name {
 			case "Bytes", "String":
 				if len(v.Args) == 0 {
@@ -1057,7 +1105,7 @@ func (f *trFn) expr(e ast.Expr) string {
 			case "Match":
 				if id, ok := sel.X.(*ast.Ident); ok && len(v.Args) == 1 {
 					if _, isVar := f.lookup(id.Name); isVar {
-						return "(ext.reMatch " + f.expr(sel.X) + " " + f.expr(v.Args[0]) + ")"
+						return "(ext." + f.p.unit.matchExt + " " + f.expr(sel.X) + " " + f.expr(v.Args[0]) + ")"
 					}
 				}
 			}
@@ -1073,17 +1121,93 @@ func (f *trFn) expr(e ast.Expr) string {
 			return "(goConv " + f.expr(v.Args[0]) + ")"
 		case "len":
 			return "(GoLen.len " + f.expr(v.Args[0]) + ")"
+		case "append":
+			if len(v.Args) != 2 || v.Ellipsis.IsValid() {
+				trFail(v, "append with %d arguments", len(v.Args))
+			}
+			return "(" + f.expr(v.Args[0]) + " ++ [" + f.expr(v.Args[1]) + "])"
+		case "strings.Split":
+			return "(splitOnByte " + f.oneByteLit(v.Args[1]) + " " + f.expr(v.Args[0]) + ")"
+		case "strings.SplitN":
+			if n := eval(v.Args[2], nil); n == nil || n.ExactString() != "2" {
+				trFail(v, "strings.SplitN with a limit other than 2")
+			}
+			return "(splitN " + f.oneByteLit(v.Args[1]) + " 2 " + f.expr(v.Args[0]) + ")"
+		case "strings.HasPrefix":
+			return "(hasPrefix " + f.expr(v.Args[1]) + " " + f.expr(v.Args[0]) + ")"
+		case "strings.Contains":
+			return "(List.contains " + f.expr(v.Args[0]) + " " + f.oneByteLit(v.Args[1]) + ")"
+		case "strings.Join":
+			return "(joinByte " + f.oneByteLit(v.Args[1]) + " " + f.expr(v.Args[0]) + ")"
+		case "regexp.Compile":
+			return "(ext.reCompile " + f.expr(v.Args[0]) + ")"
+		case "fmt.Sprintf":
+			return f.sprintf(v)
 		case "strconv.ParseFloat":
 			return "(ext.parseFloat " + f.expr(v.Args[0]) + ")"
 		case "strconv.Atoi":
 			return "(ext.atoi " + f.expr(v.Args[0]) + ")"
 		case "fmt.Errorf", "errors.New":
-			return "(some " + f.expr(v.Args[0]) + ")"
+			c := eval(v.Args[0], nil)
+			if c == nil {
+				trFail(v, "error text is not a constant")
+			}
+			text, _ := constStr(c)
+			return "(some " + leanBytesLit(text) + ")"
 		}
 		trFail(v, "call of %s is not in the translated subset", fn)
 	}
 	trFail(e, "expression %s (%T) is not in the translated subset", src(e), e)
 	return ""
+}
+
+// leanBytesLit: a Go string constant as an explicit byte list (reduces in the kernel, unlike a run-time conversion)
+func leanBytesLit(text string) string {
+	if text == "" {
+		return "([] : GoString)"
+	}
+	var parts []string
+	for _, b := range []byte(text) {
+		parts = append(parts, fmt.Sprint(b))
+	}
+	return "([" + strings.Join(parts, ", ") + "] : GoString)"
+}
+
+// oneByteLit: a string literal of exactly one byte, as a Lean UInt8 literal (the only separators the prelude's
+// split / join / contains take)
+func (f *trFn) oneByteLit(e ast.Expr) string {
+	c := eval(e, nil)
+	if c == nil {
+		trFail(e, "separator is not a constant")
+	}
+	s, ok := constStr(c)
+	if !ok || len(s) != 1 {
+		trFail(e, "separator %q is not a one-byte string", s)
+	}
+	return fmt.Sprintf("(%d : UInt8)", s[0])
+}
+
+// sprintf: fmt.Sprintf whose verbs are all %s applied to strings becomes a concatenation
+func (f *trFn) sprintf(v *ast.CallExpr) string {
+	c := eval(v.Args[0], nil)
+	if c == nil {
+		trFail(v, "format is not a constant")
+	}
+	format, _ := constStr(c)
+	parts := strings.Split(format, "%s")
+	if len(parts) != len(v.Args) || strings.Contains(strings.Join(parts, ""), "%") {
+		trFail(v, "fmt.Sprintf format %q: only %%s verbs, one per argument", format)
+	}
+	var out []string
+	for i, p := range parts {
+		if p != "" {
+			out = append(out, leanBytesLit(p))
+		}
+		if i+1 < len(parts) {
+			out = append(out, f.expr(v.Args[i+1]))
+		}
+	}
+	return "(" + strings.Join(out, " ++ ") + ")"
 }
 
 // ---------------------------------------------------------------- driver
